@@ -394,10 +394,13 @@ pub fn do_val(_t: &Tables, k: &str, bs: &str) -> String {
     let bonds = match parse_bond_multi(bs) { Some(b) => b, None => return "bad".to_string() };
     let targets = list_s(kind.targets());
     let ar = kind.is_aromatic();
+    let a0 = Atom::new(parse_kind(k).unwrap());
+    let ba = bonds.iter().filter(|b| b.is_aromatic()).count();
+    let bd = bonds.iter().filter(|b| b.is_directional()).count();
     let atom = Atom { kind, bonds };
     let s = match catch_unwind(AssertUnwindSafe(|| atom.subvalence())) { Ok(v) => v.to_string(), Err(_) => "panic".to_string() };
     let h = match catch_unwind(AssertUnwindSafe(|| atom.suppressed_hydrogens())) { Ok(v) => v.to_string(), Err(_) => "panic".to_string() };
-    format!("T {} # S {} # H {} # AR {}", targets, s, h, ar)
+    format!("T {} # S {} # H {} # AR {} # AA {} {} {} # BA {} # BD {}", targets, s, h, ar, atom.is_aromatic(), a0.is_aromatic(), a0.bonds.len(), ba, bd)
 }
 
 pub fn do_deb(t: &Tables, k: &str, bos: &str) -> String {
